@@ -24,7 +24,11 @@ func main() {
 	n := flag.Int("n", 1000, "number of generated cases (scale)")
 	out := flag.String("out", "-", "summary JSON path")
 	replay := flag.String("replay", "", "replay file (JSON with an ops list)")
+	work := flag.String("work", "", "scratch directory (default: the system temporary directory)")
 	flag.Parse()
+	if *work != "" {
+		workRoot = *work
+	}
 	if flag.NArg() != 1 {
 		fmt.Fprintln(os.Stderr, "usage: harness [flags] <component>")
 		os.Exit(2)
